@@ -246,7 +246,7 @@ long Kernel::k_write(int fd, const void *buf, size_t n, Owner by) {
     else switch (f->kind) {
     case F_PIPE_W: {
         auto &p = *f->pipe;
-        if (p.readers == 0) { err = EPIPE; sigpipe_count++; break; }
+        if (p.readers == 0) { err = EPIPE; if (by == OWN_LIB) sigpipe_count++; break; }
         size_t space = p.capacity > p.buf.size() ? p.capacity - p.buf.size() : 0;
         if (n <= 4096) {
             if (space < n) { err = EAGAIN; if (by == OWN_LIB) R->ctr.fault("pipe_full"); break; }
